@@ -271,6 +271,7 @@ func faultTable() []faultCase {
 	add("CallIndirect-method/variadic-interface-method-counts", "l := host.NewLogger()\npanic(l.Count()*1000 + l.Count(7)*100 + l.Count(7, 8, 9)*10 + l.Count([]int{1, 2}...))", pe+"132$")
 	add("Defer/interface-method", "l := host.NewLogger()\ndefer l.Logf(\"%d\", 1)\ndefer l.Count()\ndefer l.Count([]int{1}...)", "^nil$")
 	add("Defer/interface-method-nil-interface", "var l host.Logger\ndefer l.Count(1)", pe+"runtime error: invalid memory address or nil pointer dereference$")
+	add("CallNative/callback-with-escaping-result", "r := 0\nhost.Call(func() { r = func() (n int) { defer func() { n *= 2 }(); n = 21; return }() })\nf := func() (n int) { p := &n; *p = 4; return }\ng := f\nfunc() { _ = f }()\npanic(r*10 + g() + f())", pe+"428$")
 	add("CallNative/panic-string", "host.PanicString()", pe+"native panic$")
 	add("CallNative/panic-error", "host.PanicError()", pe+"native error$")
 	add("CallNative/panic-int", "host.PanicInt()", pe+"7$")
